@@ -433,6 +433,11 @@ func registerMisc(t map[string]intrinsic) {
 	}
 	t["sort.SliceStable"] = t["sort.Slice"]
 
+	lookupEnv := func(ex *Exec, caller *frame, fn *ssa.Function, args []Value) (Value, *goPanic) {
+		return Tuple{Str{}, ex.C.False}, nil
+	}
+	t["os.LookupEnv"] = lookupEnv
+	t["syscall.Getenv"] = lookupEnv
 	t["os.Getenv"] = func(ex *Exec, caller *frame, fn *ssa.Function, args []Value) (Value, *goPanic) {
 		return Str{}, nil
 	}
